@@ -52,7 +52,12 @@ def run_condition(c):
         cmd += ['--max-uninteresting', str(c['max_uninteresting'])]
     t0 = time.time()
     res, err = sh_json(cmd, 'XRESULT', c['timeout'] * 1.5 + c.get('reach_timeout', 40) + 120)
-    if res is None:
+    if res is None and (err or '').startswith('timeout after'):
+        # the worker did not come back within 1.5 x its budget (e.g. a heavily loaded machine): no verdict for this
+        # condition = inconclusive, like any other exhausted budget -- never a success, never an alarm
+        res = {'module': c['module'], 'fn': c['fn'], 'shard': c.get('shard'), 'params': c.get('params') or {},
+               'runs': {'check': {'status': 'unknown', 'message': 'hard ' + err, 'reached': 1}, 'reach': {'status': 'refuted'}}}
+    elif res is None:
         res = {'module': c['module'], 'fn': c['fn'], 'shard': c.get('shard'),
                'params': c.get('params') or {},
                'runs': {'check': {'status': 'error', 'message': 'worker died: ' + (err or '')[-1500:]}}}
@@ -64,7 +69,10 @@ def run_z(c):
     cmd = [PY, '-m', 'lib.zworker', c['module'], '--tier', c['tier'], '--group', c['group']]
     t0 = time.time()
     res, err = sh_json(cmd, 'ZRESULT', c['timeout'])
-    if res is None:
+    if res is None and (err or '').startswith('timeout after'):
+        res = {'module': c['module'], 'group': c['group'], 'queries': [{'name': c['group'] + ' (group budget exhausted)', 'result': 'timeout',
+                                                                         'inconclusive': True, 'ms': c['timeout'] * 1000}], 'violations': []}
+    elif res is None:
         res = {'module': c['module'], 'group': c['group'], 'error': 'z worker died: ' + (err or '')[-2000:],
                'queries': [], 'violations': []}
     res['wall_total_s'] = round(time.time() - t0, 2)
